@@ -62,6 +62,8 @@ type OpEnv struct {
 	EqAny    func(a, b interface{}) string
 	Pick     func(m Money) Money
 	AnyPick  interface{}                     // holds a func(Money) Money: a callee known only at run time
+	SubI     func(a, b int) int              // an overload on plain ints
+	HalfF    func(x float64) float64         // a float parameter: integer literals in its argument are retyped
 	MatchTag func(a, b string) bool          // candidate for the operator "matches"
 	VarTwo   func(a Money, b ...Money) Money // two parameters, but variadic: ill-shaped
 	Sum      func(xs []int) int
@@ -121,6 +123,8 @@ func newOpEnv(r *runner.Rng) *OpEnv {
 	e.AddStr = func(a, b fmt.Stringer) string { add("AddStr(%v,%v)", a, b); return a.String() + b.String() }
 	e.EqAny = func(a, b interface{}) string { add("EqAny(%v,%v)", a, b); return fmt.Sprintf("%v|%v", a, b) }
 	e.Pick = func(m Money) Money { add("Pick(%v)", m); return Money{m.Cents + 1, m.Cur} }
+	e.SubI = func(a, b int) int { add("SubI(%v,%v)", a, b); return a - b + 100 }
+	e.HalfF = func(x float64) float64 { add("HalfF(%v)", x); return x / 2 }
 	e.MatchTag = func(a, b string) bool { add("MatchTag(%q,%q)", a, b); return len(a) == len(b) }
 	e.VarTwo = func(a Money, b ...Money) Money { return a }
 	e.AnyPick = func(m Money) Money { add("AnyPick(%v)", m); return Money{m.Cents + 2, m.Cur} }
@@ -159,6 +163,8 @@ var c17Tables = []opTable{
 	{"+": {"AddMoney", "AddCents", "AddInts"}, "-": {"SubCents", "SubMoney"}, "*": {"MulMoney"}, "<": {"LtMoney"}},
 	// a word operator with a node kind of its own
 	{"matches": {"MatchTag"}, "+": {"AddMoney"}, "==": {"EqMoney"}},
+	// an overload on ints, met inside arguments whose literals the checker retypes
+	{"-": {"SubI", "SubMoney"}, "+": {"AddMoney"}},
 }
 
 // resolve returns the function the library must pick for op on (lt, rt), or "".
@@ -431,7 +437,7 @@ func (g *c17Gen) bool_(n int) *term.Term {
 
 func (g *c17Gen) top(n int) *term.Term {
 	r := g.r
-	switch r.Intn(10) {
+	switch r.Intn(11) {
 	case 0:
 		return g.money(n)
 	case 1:
@@ -451,6 +457,14 @@ func (g *c17Gen) top(n int) *term.Term {
 		body := g.mark("closure-body", g.money(n-2))
 		g.elems = g.elems[:len(g.elems)-1]
 		return tt(term.KBuiltin, "map", term.ArrT, g.id("Monies"), body)
+	case 10:
+		// an int overload inside an argument whose integer literals are
+		// retyped to the (float) parameter
+		if inner, ok := g.bin("-", g.int_(n/2), term.Int(1+r.Intn(3))); ok {
+			arg := tt(term.KBinary, "*", term.IntT, inner, term.Int(2))
+			return tt(term.KCall, "HalfF", term.FloatT, g.mark("retyped-argument", arg))
+		}
+		return g.money(n)
 	case 9:
 		// argument of a callee whose type is only known at run time
 		return tt(term.KCall, "AnyPick", term.AnyT, g.mark("argument-of-dynamic-callee", g.money(n-1)))
